@@ -159,7 +159,8 @@ class MCNP_Lexer(Lexer):
             t.type = "TEXT"
         return t
 
-    @_(r"SC\d+.*")
+    # the text may go on on continuation lines (five or more leading blanks)
+    @_(r"SC\d+.*(\n[ ]{5,}.*)*")
     def SOURCE_COMMENT(self, t):
         """
         A source comment.
@@ -171,7 +172,8 @@ class MCNP_Lexer(Lexer):
         else:
             raise ValueError("Comment not allowed here")
 
-    @_(r"FC\d+.*")
+    # the text may go on on continuation lines (five or more leading blanks)
+    @_(r"FC\d+.*(\n[ ]{5,}.*)*")
     def TALLY_COMMENT(self, t):
         """
         A tally Comment.
